@@ -94,15 +94,21 @@ pub struct Outcome {
 
 /// 16-aligned scratch buffer: account data starts 8 bytes in, so that the zero-copy struct behind the
 /// 8-byte discriminator is 16-aligned (u128 fields) as `bytemuck::from_bytes` requires natively.
-fn aligned_copy(data: &[u8]) -> (&'static mut [u8], usize) {
+/// Returns the data slice and the raw allocation (to be released with `free_buf` once no `AccountInfo` uses it).
+fn aligned_copy(data: &[u8]) -> (&'static mut [u8], *mut [u128]) {
     let words = (data.len() + 8 + 15) / 16 + 1;
-    let buf: &'static mut [u128] = Box::leak(vec![0u128; words].into_boxed_slice());
-    let bytes: &'static mut [u8] = unsafe { std::slice::from_raw_parts_mut(buf.as_mut_ptr() as *mut u8, words * 16) };
+    let raw: *mut [u128] = Box::into_raw(vec![0u128; words].into_boxed_slice());
+    // SAFETY: `raw` is a live, exclusively owned allocation of `words * 16` bytes.
+    let bytes: &'static mut [u8] = unsafe { std::slice::from_raw_parts_mut(raw as *mut u8, words * 16) };
     let (_, rest) = bytes.split_at_mut(8);
     let len = data.len();
     rest[..len].copy_from_slice(data);
     let (d, _) = rest.split_at_mut(len);
-    (d, len)
+    (d, raw)
+}
+/// SAFETY: `raw` must come from `aligned_copy` and nothing may reference the buffer any more.
+unsafe fn free_buf(raw: *mut [u128]) {
+    drop(Box::from_raw(raw));
 }
 
 /// Run `entry(program_id, accounts(metas), data)` on the ledger.  A failed instruction leaves the ledger
@@ -110,7 +116,8 @@ fn aligned_copy(data: &[u8]) -> (&'static mut [u8], usize) {
 /// anything before failing is reported separately.
 pub fn process(ledger: &mut Vec<Acct>, entry: Entry, program_id: &Pubkey, metas: &[AccountMeta], data: &[u8]) -> Outcome {
     let mut infos: Vec<AccountInfo<'static>> = Vec::with_capacity(metas.len());
-    let mut slots: Vec<(usize, &'static [u8], &'static u64)> = vec![];
+    let mut slots: Vec<usize> = vec![];
+    let mut bufs: Vec<*mut [u128]> = vec![];
     // one shared backing store per distinct key (duplicates alias the same cells, as in the real runtime)
     let mut seen: Vec<(Pubkey, AccountInfo<'static>)> = vec![];
     for m in metas {
@@ -129,25 +136,25 @@ pub fn process(ledger: &mut Vec<Acct>, entry: Entry, program_id: &Pubkey, metas:
             }
         };
         let a = &ledger[idx];
+        // key / owner / lamports cells are tiny and stay leaked; the data buffers are released below
         let key: &'static Pubkey = Box::leak(Box::new(a.key));
         let owner: &'static Pubkey = Box::leak(Box::new(a.owner));
         let lamports: &'static mut u64 = Box::leak(Box::new(a.lamports));
-        let lam_ptr: *const u64 = lamports;
-        let (d, _) = aligned_copy(&a.data);
-        let d_ptr: *const u8 = d.as_ptr();
-        let d_len = d.len();
+        let (d, raw) = aligned_copy(&a.data);
+        bufs.push(raw);
         let ai = AccountInfo::new(key, m.is_signer, m.is_writable, lamports, d, owner, a.executable, 0);
-        // SAFETY: the leaked buffers live for the rest of the process; read back after the call.
-        slots.push((idx, unsafe { std::slice::from_raw_parts(d_ptr, d_len) }, unsafe { &*lam_ptr }));
+        slots.push(idx);
         seen.push((m.pubkey, ai.clone()));
         infos.push(ai);
     }
-    let infos: &'static [AccountInfo<'static>] = Box::leak(infos.into_boxed_slice());
-    let result = entry(program_id, infos, data);
-    // read back (data length may not change in the instructions we drive: no realloc support)
+    let infos_raw: *mut [AccountInfo<'static>] = Box::into_raw(infos.into_boxed_slice());
+    // SAFETY: the slice lives until it is re-boxed and dropped at the end of this function.
+    let infos_ref: &'static [AccountInfo<'static>] = unsafe { &*infos_raw };
+    let result = entry(program_id, infos_ref, data);
+    // read back (data length may shrink (close) but never grows in the instructions we drive: no realloc growth support)
     let mut touched = false;
     let mut after: Vec<(usize, Vec<u8>, u64, Pubkey)> = vec![];
-    for (k, (idx, _d, _l)) in slots.iter().enumerate() {
+    for (k, idx) in slots.iter().enumerate() {
         let ai = &seen[k].1;
         let data_now = ai.data.borrow().to_vec();
         let lam_now = **ai.lamports.borrow();
@@ -164,7 +171,15 @@ pub fn process(ledger: &mut Vec<Acct>, entry: Entry, program_id: &Pubkey, metas:
             ledger[idx].owner = o;
         }
     }
-    Outcome { result, touched_before_return: touched && true }
+    // release the account data buffers: first every AccountInfo (they hold the only references), then the allocations
+    drop(seen);
+    // SAFETY: `infos_raw` came from Box::into_raw above; `entry` has returned and keeps nothing.
+    unsafe { drop(Box::from_raw(infos_raw)) };
+    for raw in bufs {
+        // SAFETY: all AccountInfos referencing the buffer were dropped just above.
+        unsafe { free_buf(raw) };
+    }
+    Outcome { result, touched_before_return: touched }
 }
 
 /// `LastRestartSlot` sysvar value served by the stub.
@@ -176,6 +191,7 @@ pub fn leak_info(a: &Acct, is_signer: bool, is_writable: bool) -> AccountInfo<'s
     let key: &'static Pubkey = Box::leak(Box::new(a.key));
     let owner: &'static Pubkey = Box::leak(Box::new(a.owner));
     let lamports: &'static mut u64 = Box::leak(Box::new(a.lamports));
-    let (d, _) = aligned_copy(&a.data);
+    // the buffer stays leaked: the caller keeps the AccountInfo for as long as it likes
+    let (d, _raw) = aligned_copy(&a.data);
     AccountInfo::new(key, is_signer, is_writable, lamports, d, owner, a.executable, 0)
 }
